@@ -115,7 +115,8 @@ def _stats(logf):
             n += 1
             fam[c["fam"]] = fam.get(c["fam"], 0) + 1
             h = hashlib.sha256(json.dumps([c["kind"], c["pol"], c["setup"], c["chain"], c["side"], c["n"],
-                                           c["req"] if c["kind"] == "commit" else None], sort_keys=True).encode()).hexdigest()
+                                           c["req"] if c["kind"] != "setup" else None,
+                                           c["seq"] if c["kind"] == "seq" else None], sort_keys=True).encode()).hexdigest()
             seen.add(h)
             o = c["obs"]
             reached = o["setup"] != "none" if c["kind"] == "setup" else o["res"] != "none"
@@ -147,6 +148,7 @@ def _violations(rep, cases_file, logf, leg):
         what = ("the real %s ACCEPTED (%s) what the reference predicate says must be refused: binding rule(s) %s "
                 "[%s]; %d recorded case(s), sides %s; first: case %d (%s)"
                 % ({"setup": "setup_channel", "open": "open step (initial commitments)",
+                    "request1": "first commitment request of the sequence",
                     "request": "commitment request"}[first["ev"]], leg, "+".join(sorted(first["rules"])),
                    first["detail"], len(vs), ",".join(sides), first["id"], first["why"]))
         out.append({"key": key, "what": what,
